@@ -12,6 +12,7 @@ import (
 	"path/filepath"
 	"runtime"
 	"sort"
+	"strconv"
 	"strings"
 	"sync"
 	"sync/atomic"
@@ -333,6 +334,16 @@ func buildC05(s *c05Sched) *flamego.Flame {
 		}, func(c flamego.Context) { s.perturb(c.Param("tok"), 1) })
 	}, func(c flamego.Context) { c.Next() })
 	f.Get("/s/{tok}", func(c flamego.Context, v c05ReqVal) { s.perturb(v.Tok, 1) })
+	// a response that takes seconds to stream (a download, server-sent events): whatever the built-in middleware does
+	// on a timer or in the background while a request is still being answered happens during this one
+	f.Get("/slow/{tok}", func(c flamego.Context, v c05ReqVal) {
+		n, _ := strconv.Atoi(c.Request().Header.Get("X-Chunks"))
+		for i := 0; i < n; i++ {
+			_, _ = c.ResponseWriter().Write([]byte(fmt.Sprintf("c%d;", i)))
+			c.ResponseWriter().Flush()
+			time.Sleep(90 * time.Millisecond)
+		}
+	})
 	f.AutoHead(true)
 	f.Get("/ah/{tok}", echo("head-autohead")...)
 	f.AutoHead(false)
@@ -481,8 +492,39 @@ func runC05Round(w *core.W, c *c05Round, st *c05Stats, salt uint64) bool {
 			}
 		}(g)
 	}
+	var slow c05Resp
+	slowChunks := 0
+	if c.Round == 0 && salt == 0 {
+		slowChunks = 30 // 2.7 s
+		if w.R.Thorough() {
+			slowChunks = 125 // 11 s
+		}
+		wg.Add(1)
+		go func() {
+			defer wg.Done()
+			<-start
+			spy := &retSpy{h: http.Header{}}
+			req := &http.Request{Method: "GET", URL: &url.URL{Path: "/slow/t9x99999"}, Header: http.Header{"X-Tok": {"t9x99999"}, "X-Chunks": {fmt.Sprint(slowChunks)}}, RequestURI: "/slow/t9x99999", Body: io.NopCloser(strings.NewReader(""))}
+			func() {
+				defer func() { slow.pan = recover() }()
+				cold.ServeHTTP(spy, req)
+			}()
+			slow.status, slow.body = spy.status, string(spy.body)
+		}()
+	}
 	close(start)
 	wg.Wait()
+	if slowChunks > 0 {
+		var want strings.Builder
+		for i := 0; i < slowChunks; i++ {
+			fmt.Fprintf(&want, "c%d;", i)
+		}
+		w.Count("slow-streaming-responses")
+		if slow.pan != nil || slow.status != 200 || slow.body != want.String() {
+			w.Violate("isolation", c, fmt.Sprintf("the response streamed over %d chunks while the round ran: panic=%v status=%d body=%q", slowChunks, slow.pan, slow.status, clip(slow.body)))
+			return false
+		}
+	}
 	st.mu.Lock()
 	st.requests += int64(total)
 	st.overlaps += atomic.LoadInt64(&sched.overlaps)
@@ -684,7 +726,7 @@ func judgeHammer(w *core.W, c *hammerCase) bool {
 }
 
 func runC05(r *core.Run) {
-	r.Rule("per round one COLD instance (lazy caches unfilled) with routes of every kind (static shortcut, optional static short/long, placeholder, multi-bind regex, match-all with capture, final match-all, header-constrained, Any, named route used for URL building, JSON rendering, a panicking route behind Recovery, a route whose chain writes nothing, a redirecting route, a GET route with its automatic HEAD twin, a directory served through its index file, requests with method tokens no route was registered for, custom not-found chain) and Logger+Recovery+Renderer middleware; 84-168 goroutines behind a barrier, the first wave hits every route kind while cold, then few hot routes; every request carries a unique token in a header, the query, a cookie and the body, half of them also in the path - the other half use one of 400 shared path keys, so that paths repeat; an early middleware maps a request-scoped value; handlers reached through Next (fast path) and reflectively echo parameters, `route`, the injected value, a built URL and the body, with seeded yields / sleeps / pairwise rendezvous between reading and writing. Oracles: (1) Go race detector, report blocks with a framework frame counted from the log; (2) byte-for-byte equality (status, body, Content-Type, ETag, response tags) with an identically built instance that served the same requests serially, which in turn equals - for the cold wave and every 32nd request - a fresh instance that serves nothing else; (3) no foreign token in any response; (4) every line the request logger writes carries the request-scoped logger (request id) of the request it is about. Then one hammer instance: 32 goroutines x 60 000 / 300 000 requests over 700 keys and five route kinds with minimal self-describing handlers (each response names the route and parameters of the request it answers). non-trivial = distinct concurrent rounds")
+	r.Rule("per round one COLD instance (lazy caches unfilled) with routes of every kind (static shortcut, optional static short/long, placeholder, multi-bind regex, match-all with capture, final match-all, header-constrained, Any, named route used for URL building, JSON rendering, a panicking route behind Recovery, a route whose chain writes nothing, a redirecting route, a response streamed over 2.7 s (thorough: 11 s) while the first round runs, a GET route with its automatic HEAD twin, a directory served through its index file, requests with method tokens no route was registered for, custom not-found chain) and Logger+Recovery+Renderer middleware; 84-168 goroutines behind a barrier, the first wave hits every route kind while cold, then few hot routes; every request carries a unique token in a header, the query, a cookie and the body, half of them also in the path - the other half use one of 400 shared path keys, so that paths repeat; an early middleware maps a request-scoped value; handlers reached through Next (fast path) and reflectively echo parameters, `route`, the injected value, a built URL and the body, with seeded yields / sleeps / pairwise rendezvous between reading and writing. Oracles: (1) Go race detector, report blocks with a framework frame counted from the log; (2) byte-for-byte equality (status, body, Content-Type, ETag, response tags) with an identically built instance that served the same requests serially, which in turn equals - for the cold wave and every 32nd request - a fresh instance that serves nothing else; (3) no foreign token in any response; (4) every line the request logger writes carries the request-scoped logger (request id) of the request it is about. Then one hammer instance: 32 goroutines x 60 000 / 300 000 requests over 700 keys and five route kinds with minimal self-describing handlers (each response names the route and parameters of the request it answers). non-trivial = distinct concurrent rounds")
 	r.Assume("happens-before race detection is timing independent for accesses that occur; the shadow history is bounded (4 accesses per word)")
 	r.Race = raceEnabled
 	if !raceEnabled {
@@ -745,6 +787,7 @@ func runC05(r *core.Run) {
 	w.Merge()
 	if r.Violations() == 0 {
 		r.GateCounter("hammer-requests", 1500000)
+		r.GateCounter("slow-streaming-responses", 1)
 	}
 	blocks, other := collectRaceReports()
 	keys := map[string]int{}
